@@ -573,6 +573,17 @@ func realMain() {
 	if !th {
 		addAll(def, f3[:24], 3, false)
 	}
+	// what an exec leaves behind for the next one: standard input set by stdin is
+	// for the next exec only, whatever that exec's fate; the output buffers belong
+	// to the most recent exec
+	for _, cfg := range []config{def, coe} {
+		for _, mid := range []string{"exec hexit 0", "exec hexit 3", "! exec hexit 3", "! exec hexit 0", "exec hecho out err", "! exec hecho out err", "exec hcat", "hexit 0", "! hexit 3", "exec hexit 0 &", "! exec hexit 3 &n&"} {
+			for _, obs := range []string{"stdout x", "! stdout .", "cmp stdout f", "stdout out", "! stderr ."} {
+				cases = append(cases, scase{Cfg: cfg, Lines: []string{"stdin f", mid, "exec hcat", obs}})
+				cases = append(cases, scase{Cfg: cfg, Lines: []string{"exec hecho out err", mid, obs}})
+			}
+		}
+	}
 	for _, cfg := range []config{def, coe, {Panic: true}} {
 		for _, s := range hpidScripts() {
 			cases = append(cases, scase{Cfg: cfg, Lines: s})
